@@ -147,7 +147,15 @@ def rule_hash_vs_make(ctx):
     bk, fm, err = bookkeeping_table(ctx, FX.BB + "make", rid, fields)
     role_mk = FX.role_resolver(prog.fns[FX.BB + "make"])
     seen = {}
+    unread = False
     for kind, eqs, full, pawn, preds in xt:
+        if any(tgl[0] == "?" for tgl in list(full) + list(pawn)) or (kind["castle"] and kind["target"] is None):
+            # a term of the delta that is no key lookup this rule knows (a fold over an array of optional keys, a
+            # closure ...), or a castle path that does not say which castling it is: not read
+            if not unread:
+                unread = True
+                ctx.lost(rid, "zobrist_xor: the delta contains terms that are not piece-square / castle / e.p. / side key lookups (%s)" % [tgl[1] for tgl in list(full) + list(pawn) if tgl[0] == "?"][:1])
+            continue
         if kind["castle"]:
             cls = ("castle", kind["target"])
         elif kind["ep"]:
